@@ -226,7 +226,7 @@ fn op_sequences(rep: &mut Report) {
 }
 
 pub fn run(ctx: &Ctx) -> Report {
-    let step: i64 = if ctx.quick() { 5 } else { 3 };
+    let step: i64 = if ctx.quick() { 5 } else { 2 };
     let lo = -720 / step;
     let hi = 720 / step;
     let span = (hi - lo + 1) as usize;
